@@ -484,6 +484,14 @@ func (c *Ctx) signingRootHelper(rule string, fn *ssa.Function, dataIdx, domIdx i
 		obj, _ = H.Call.Args[0].(*ssa.Alloc)
 	}
 	if obj == nil {
+		if H != nil {
+			if u, ok := H.Call.Args[0].(*ssa.UnOp); ok {
+				if g, ok := u.X.(*ssa.Global); ok {
+					c.R.Fail(rule, Fn(fn), c.Pos(H), "the object that is hashed is the package-level "+g.Name()+", shared by every request: concurrent signers (scatter workers, parallel calls) overwrite each other's root and domain between filling and hashing", "a SigningRoot object local to the call", nil)
+					return
+				}
+			}
+		}
 		c.R.Unknown(rule, Fn(fn), c.P.FuncPos(fn), "the signing-root helper does not hash a local SigningRoot object")
 		return
 	}
